@@ -15,6 +15,15 @@ USES = ("    use diplomat_runtime::{DiplomatChar, DiplomatOption, DiplomatSlice,
         "DiplomatStrSlice, DiplomatUtf8StrSlice, DiplomatWrite};\n")
 
 
+# struct field names, by position: deliberately NOT in alphabetical order (a backend that sorts names -- a BTreeSet, a
+# HashMap made deterministic -- must not get away with it) and with one that sorts differently as camelCase
+FIELD_NAMES = ["w", "c", "z_k", "a", "m", "b", "q", "d"]
+
+
+def fname(i):
+    return FIELD_NAMES[i]
+
+
 def rust_ty(t, lt, in_struct=False):
     """lt: lifetime text like "'a" or None for anonymous"""
     k = t["k"]
@@ -84,7 +93,7 @@ def prelude(defs, kotlin_errors=True, type_attr=None):
     for name, fields in defs["structs"].items():
         lt = "<'a>" if name == "Brw" else ""
         attr = "    #[diplomat::out]\n" if name == "Os" else (err if name in ("Inner", "Wide") else "")
-        fs = "".join("        pub f%d: %s,\n" % (i, rust_ty(f, "'a", in_struct=True)) for i, f in enumerate(fields))
+        fs = "".join("        pub %s: %s,\n" % (fname(i), rust_ty(f, "'a", in_struct=True)) for i, f in enumerate(fields))
         out.append(ta(name) + attr + "    pub struct %s%s {\n%s    }\n" % (name, lt, fs))
     return USES + "".join(out)
 
